@@ -178,6 +178,34 @@ fn c13_repeat_adds_same() {
     core::mem::forget(tok_owned);
 }
 
+//@ c13_long_then_short {"desc":"each sentence contributes the same amount whatever preceded it: after a 2-character sentence and then a 1-character one on the same worker, the counts are the sum of the two lattices' own evaluations (nothing of the longer lattice is counted again)","bounds":"history (reset(\"ab\"),tokenize,update),(reset(\"c\"),tokenize,update); dictionary S13","symbolic":"ids, costs, matrix","functions":["Worker::update_connid_counts","Lattice::add_connid_counts","Lattice::reset","ConnIdCounter::add"],"fs":2048,"unwind":7,"timeout":1800,"mem_gb":16}
+#[cfg(kani)]
+#[kani::proof]
+fn c13_long_then_short() {
+    let tok_owned = tokenizer_of(&S13, false, 0);
+    let tok = &tok_owned;
+    let mut w = tok.new_worker();
+    w.init_connid_counter();
+    let (mut lref, mut rref) = ([0usize; 3], [0usize; 3]);
+    w.reset_sentence("\u{1}\u{2}");
+    w.tokenize();
+    w.update_connid_counts();
+    recount(&w, 2, &mut lref, &mut rref);
+    w.reset_sentence("\u{3}");
+    w.tokenize();
+    w.update_connid_counts();
+    recount(&w, 1, &mut lref, &mut rref);
+    let (mut lid, mut rid) = ([0usize; 3], [0usize; 3]);
+    counts_of(&w, &mut lid, &mut rid);
+    for k in 0..3 {
+        assert!(lid[k] == lref[k], "left-id frequency after a longer and a shorter sentence differs from the two lattices' evaluations");
+        assert!(rid[k] == rref[k], "right-id frequency after a longer and a shorter sentence differs from the two lattices' evaluations");
+    }
+    kani::cover!(lid[0] >= 2 && lid[1] >= 1);
+    core::mem::forget(w);
+    core::mem::forget(tok_owned);
+}
+
 /// `compute_probs` lists every id except 0 exactly once, ordered by non-increasing count with
 /// ties by ascending id; the result is a mapping `ConnIdMapper::from_iter` accepts.
 #[cfg(kani)]
